@@ -6,6 +6,7 @@ import (
 	"sync"
 
 	"github.com/smallstep/certificates/authority"
+	"github.com/smallstep/linkedca"
 
 	"github.com/smallstep/certificates/authority/provisioner"
 	"verif/harness/cmd/c02/ss"
@@ -72,18 +73,36 @@ var (
 // runTokid calls the real GetTokenID of the type and the real Authority.UseToken (on bbolt) and
 // reports the id and the key the table was asked to record.
 func runTokid(t *Tokid) (string, string) {
-	tokidOnce.Do(func() { tokidEnv = newEnv(true, false, tokidHooks) })
+	tokidOnce.Do(func() { tokidEnv = newEnv(true, false, tokidHooks); sharedEnvs = append(sharedEnvs, tokidEnv) })
 	e := tokidEnv
 	p := provOf(t.Ty, t.CustomSANs)
 	if p == nil {
 		return "", ""
 	}
-	if t.Via == "linkedca" {
+	dtofuCfg := len(t.Ty) > 0 && t.Ty[len(t.Ty)-1] == '1'
+	stored := "" // a field of the stored (admin database) form that differs from the configuration
+	switch t.Via {
+	case "linkedca":
 		// what an admin-database (or linked CA) deployment does with the same configuration
 		lp, err := authority.ProvisionerToLinkedca(p)
 		if err != nil {
 			return "", "" // this type's minimal configuration has no admin-database form
 		}
+		// each direction on its own: the stored form carries the two switches as configured (two swapped or negated
+		// conversions would cancel in the round trip, and the stored form is what the admin API shows and edits)
+		if tofu, csans, ok := linkedcaSwitches(lp); ok && (tofu != dtofuCfg || csans != t.CustomSANs) {
+			stored = fmt.Sprintf(" VIOLATION=stored-form-differs disableTrustOnFirstUse=%v disableCustomSANs=%v", tofu, csans)
+		}
+		if p, err = authority.ProvisionerToCertificates(lp); err != nil {
+			return "", ""
+		}
+	case "linkedca-direct":
+		// a provisioner created through the admin API: the stored form is written first, the running form derived from it
+		lp := linkedcaOf(t.Ty, t.CustomSANs)
+		if lp == nil {
+			return "", ""
+		}
+		var err error
 		if p, err = authority.ProvisionerToCertificates(lp); err != nil {
 			return "", ""
 		}
@@ -118,7 +137,7 @@ func runTokid(t *Tokid) (string, string) {
 	if n := len(kind); kind[n-1] == '0' || kind[n-1] == '1' {
 		kind, dtofu = kind[:n-1], kind[n-1] == '1'
 	}
-	in := fmt.Sprintf("t via=%s kind=%s dtofu=%s dcsans=%s parses=%s", map[string]string{"": "config", "linkedca": "linkedca"}[t.Via], kind, c.B(dtofu), c.B(t.CustomSANs), c.B(!t.Garbage))
+	in := fmt.Sprintf("t via=%s kind=%s dtofu=%s dcsans=%s parses=%s", map[string]string{"": "config", "linkedca": "linkedca", "linkedca-direct": "linkedca"}[t.Via], kind, c.B(dtofu), c.B(t.CustomSANs), c.B(!t.Garbage))
 	in += fmt.Sprintf(" jti=%s nonce=%s derived=%s awsvalid=0 sha=%s psha=%s", c.X(t.JTI), c.X(t.Nonce), c.X(derived), c.X(sha256hex(tok)), c.X(payloadSha(tok)))
 	_ = fmt.Sprintf("t ty=%s parses=%s jti=%s nonce=%s derived=%s awsvalid=0 sha=%s", t.Ty, c.B(!t.Garbage),
 		c.X(t.JTI), c.X(t.Nonce), c.X(derived), c.X(sha256hex(tok)))
@@ -163,7 +182,38 @@ func runTokid(t *Tokid) (string, string) {
 			impl += " VIOLATION=reuse-allowed-without-configuration"
 		}
 	}()
-	return in, impl
+	return in, impl + stored
+}
+
+// the two switches of a cloud provisioner in the stored form
+func linkedcaSwitches(lp *linkedca.Provisioner) (tofu, csans, ok bool) {
+	switch d := lp.GetDetails().GetData().(type) {
+	case *linkedca.ProvisionerDetails_Azure:
+		return d.Azure.DisableTrustOnFirstUse, d.Azure.DisableCustomSans, true
+	case *linkedca.ProvisionerDetails_AWS:
+		return d.AWS.DisableTrustOnFirstUse, d.AWS.DisableCustomSans, true
+	case *linkedca.ProvisionerDetails_GCP:
+		return d.GCP.DisableTrustOnFirstUse, d.GCP.DisableCustomSans, true
+	}
+	return false, false, false
+}
+
+// the stored form written directly (cloud types only)
+func linkedcaOf(ty string, csans bool) *linkedca.Provisioner {
+	n := len(ty)
+	dtofu := ty[n-1] == '1'
+	switch ty[:n-1] {
+	case "azure":
+		return &linkedca.Provisioner{Type: linkedca.Provisioner_AZURE, Name: "p", Details: &linkedca.ProvisionerDetails{Data: &linkedca.ProvisionerDetails_Azure{
+			Azure: &linkedca.AzureProvisioner{TenantId: "tenant", DisableCustomSans: csans, DisableTrustOnFirstUse: dtofu}}}}
+	case "aws":
+		return &linkedca.Provisioner{Type: linkedca.Provisioner_AWS, Name: "p", Details: &linkedca.ProvisionerDetails{Data: &linkedca.ProvisionerDetails_AWS{
+			AWS: &linkedca.AWSProvisioner{Accounts: []string{"123"}, DisableCustomSans: csans, DisableTrustOnFirstUse: dtofu}}}}
+	case "gcp":
+		return &linkedca.Provisioner{Type: linkedca.Provisioner_GCP, Name: "p", Details: &linkedca.ProvisionerDetails{Data: &linkedca.ProvisionerDetails_GCP{
+			GCP: &linkedca.GCPProvisioner{ServiceAccounts: []string{"sa"}, DisableCustomSans: csans, DisableTrustOnFirstUse: dtofu}}}}
+	}
+	return nil
 }
 
 func cornerTokids() []*Tokid {
@@ -171,6 +221,7 @@ func cornerTokids() []*Tokid {
 	for _, ty := range []string{"azure0", "azure1", "aws0", "aws1", "gcp0", "gcp1", "jwk", "oidc", "k8ssa", "acme", "x5c", "sshpop", "nebula", "scep"} {
 		for _, cs := range []bool{false, true} {
 			out = append(out, &Tokid{Via: "linkedca", CustomSANs: cs, Ty: ty, JTI: "jl-" + randHex(), Nonce: "nl-" + randHex(), MirID: "ml-" + randHex(), Instance: "il-" + randHex()})
+			out = append(out, &Tokid{Via: "linkedca-direct", CustomSANs: cs, Ty: ty, JTI: "jd-" + randHex(), Nonce: "nd-" + randHex(), MirID: "md-" + randHex(), Instance: "id-" + randHex()})
 			out = append(out, &Tokid{CustomSANs: cs, Ty: ty, JTI: "jc-" + randHex(), Nonce: "nc-" + randHex(), MirID: "mc-" + randHex(), Instance: "ic-" + randHex()})
 		}
 	}
@@ -192,6 +243,9 @@ func genTokid(r *c.Rng) *Tokid {
 	t := &Tokid{Ty: c.Pick(r, tokidTypes), Garbage: r.Chance(1, 8), CustomSANs: r.Chance(1, 2)}
 	if r.Chance(1, 2) {
 		t.Via = "linkedca"
+		if r.Chance(1, 3) {
+			t.Via = "linkedca-direct"
+		}
 	}
 	// ids are made unique per run so that the shared table never already holds them
 	if r.Chance(3, 4) {
